@@ -1,6 +1,9 @@
 //! Entry point: `vcheck <ID> --tier quick|thorough` or `vcheck <ID> --replay <file>`.
+mod c01;
 mod c04;
+mod corpus;
 mod c05;
+mod c07;
 mod c11;
 mod c14;
 
@@ -36,10 +39,26 @@ fn main() {
         }
     }
     match id.as_str() {
+        "C01" => c01::main("C01", &args),
+        "C02" => c01::main("C02", &args),
+        "C03" => c01::main("C03", &args),
+        "C07" => c01::main("C07", &args),
         "C04" => c04::main(&args),
         "C05" => c05::main(&args),
         "C11" => c11::main(&args),
         "C14" => c14::main(&args),
+        "setup" => {
+            // generate and build every quick-tier corpus so that the first quick check is fast
+            let mut pkgs = vec![];
+            for spec in corpus::all_specs(Tier::Quick) {
+                pkgs.extend(corpus::generate(&spec));
+            }
+            if let Err(e) = corpus::build(&pkgs) {
+                eprintln!("setup: corpus build failed:\n{e}");
+                std::process::exit(2);
+            }
+            println!("setup: built {} corpus crates", pkgs.len());
+        }
         "c05-child" => c05::child(&args),
         _ => usage(),
     }
